@@ -5,7 +5,9 @@ FUNCTIONS = ["MadxEval.__init__@callbacks", "MadxEval.assign_var@token-keys", "M
              "MadxEval.getattr@token-keys"]
 # the arithmetic a parsed expression is made of: operator constructors and node evaluation (C04), dependency walkers (C05)
 import props.C04 as _p4      # noqa: E402
-BORROW = [("C04", [f for f in _p4.FUNCTIONS if not f.startswith("MutableRef.__i") and f not in ("AttrRef._set_value", "ItemRef._set_value")]), ("C05", ['MutableRef._get_dependencies', 'Ref._get_dependencies', 'BinOpExpr._get_dependencies', 'UnaryOpExpr._get_dependencies', 'LiteralExpr._get_dependencies', 'BuiltinRef._get_dependencies', 'CallRef._get_dependencies'])]
+BORROW = [("C04", [f for f in _p4.FUNCTIONS if not f.startswith("MutableRef.__i") and f not in ("AttrRef._set_value", "ItemRef._set_value")]), ("C05", ['MutableRef._get_dependencies', 'Ref._get_dependencies', 'BinOpExpr._get_dependencies', 'UnaryOpExpr._get_dependencies', 'LiteralExpr._get_dependencies', 'BuiltinRef._get_dependencies', 'CallRef._get_dependencies']),
+          # "keeps doing so after the variables change through the manager": the assignment stores the value and runs the dependants
+          ("C01", ["Manager.set_value", "Manager.run_tasks", "ExprTask.run", "ExprTask.__init__"])]
 RAC = "rac/c19.py"
 RAC_BUDGET = {"quick": 60, "thorough": 600}
 RAC_MIN = {"quick": 149, "thorough": 149}      # fewer run-time evaluations than this = the harness skipped its work: checker broken, not "held"
